@@ -211,3 +211,56 @@ package modbus
 //@     invariant forall k int :: 0 <= k && k <= rangeindex ==> ret[2*k] == lo16(bits32(in[k])) && ret[2*k+1] == hi16(bits32(in[k]))
 //@     modifies ret
 //@     decreases len(in) - rangeindex
+
+// ---- reg.go: the register file (C18) -------------------------------------------
+// Abstraction used by all register contracts: register `a` exists iff 0 <= a <= 65535
+// and some entry of r.regs has that address; its value is that of the FIRST such entry.
+
+//@ spec func matchAt(r *Regs, k int, a int) bool = 0 <= k && k < len(r.regs) && int(r.regs[k].Address) == a
+//@ spec func firstAt(r *Regs, k int, a int) bool = matchAt(r, k, a) && (forall j int :: 0 <= j && j < k ==> int(r.regs[j].Address) != a)
+//@ spec func hasReg(r *Regs, a int) bool = 0 <= a && a <= 65535 && (exists k int :: matchAt(r, k, a))
+//@ spec func accepts(r *Regs, k int, v uint16) bool = r.regs[k].Validate == nil || apply(r.regs[k].Validate, v)
+//@ spec func regsSame(r *Regs) bool = sameSlice(r.regs, old(r.regs)) && (forall j int :: 0 <= j && j < len(r.regs) ==> r.regs[j] == old(r.regs[j]))
+//@ spec func regsSameExcept(r *Regs, k int) bool = sameSlice(r.regs, old(r.regs)) && (forall j int :: 0 <= j && j < len(r.regs) && j != k ==> r.regs[j] == old(r.regs[j]))
+//@ spec func bit16(v uint16, n int) bool = (v >> uint(n)) & 1 == 1
+//@ spec func setBit16(v uint16, n int, b bool) uint16 = ite(b, v | (1 << uint(n)), v & ^(1 << uint(n)))
+
+//@ func (*Regs).readReg
+//@   props C18
+//@   mode bv
+//@   requires r != nil
+//@   ensures [C18] err == nil ==> hasReg(r, address) && (forall k int :: firstAt(r, k, address) ==> res0 == r.regs[k].Value)
+//@   ensures [C18] err != nil ==> err == ExcIllegalAddress && !hasReg(r, address) && res0 == 0
+//@   loop 1:
+//@     invariant -1 <= rangeindex && rangeindex < len(r.regs) || rangeindex == -1
+//@     invariant forall j int :: 0 <= j && j <= rangeindex ==> r.regs[j].Address != uint16(address)
+//@     decreases len(r.regs) - rangeindex
+
+//@ func (*Regs).ReadReg
+//@   props C18
+//@   mode bv
+//@   requires r != nil
+//@   ensures [C18] err == nil ==> hasReg(r, address) && (forall k int :: firstAt(r, k, address) ==> res0 == r.regs[k].Value)
+//@   ensures [C18] err != nil ==> err == ExcIllegalAddress && !hasReg(r, address)
+
+//@ func (*Regs).ReadInputReg
+//@   props C18
+//@   mode bv
+//@   requires r != nil
+//@   ensures [C18] err == nil ==> hasReg(r, address) && (forall k int :: firstAt(r, k, address) ==> res0 == r.regs[k].Value)
+//@   ensures [C18] err != nil ==> err == ExcIllegalAddress && !hasReg(r, address)
+
+//@ func (*Regs).writeReg
+//@   props C18
+//@   mode bv
+//@   requires r != nil
+//@   modifies r.regs
+//@   ensures [C18] err == nil ==> old(hasReg(r, address)) && (forall k int :: old(firstAt(r, k, address)) ==> old(accepts(r, k, value)) && r.regs[k].Value == value && r.regs[k].Address == old(r.regs[k].Address) && r.regs[k].Validate == old(r.regs[k].Validate) && regsSameExcept(r, k))
+//@   ensures [C18] err != nil ==> regsSame(r)
+//@   ensures [C18] err != nil ==> (err == ExcIllegalAddress && !old(hasReg(r, address))) || (err == ExcIllegalValue && old(hasReg(r, address)) && (forall k int :: old(firstAt(r, k, address)) ==> !old(accepts(r, k, value))))
+//@   loop 1:
+//@     invariant -1 <= rangeindex && rangeindex < len(r.regs) || rangeindex == -1
+//@     invariant forall j int :: 0 <= j && j <= rangeindex ==> r.regs[j].Address != uint16(address)
+//@     invariant regsSame(r)
+//@     modifies r.regs
+//@     decreases len(r.regs) - rangeindex
